@@ -135,6 +135,12 @@ class ConfigTargetVisibility(object):
                     self._expr_is_target_constant(cond) and self._expr_is_target_constant(value)
                     for value, cond in item.defaults
                 )
+                # values forced or suggested by 'set' / 'set default' of other options (the condition holds the source)
+                and all(
+                    self._expr_is_target_constant(cond) and self._expr_is_target_constant(value)
+                    for value, cond, _src in list(item.rev_values) + list(item.weak_rev_values)
+                )
+                and (not item.weak_rev_values or self._expr_is_target_constant(item.direct_dep))
             )
 
         self._constants_cache[item.name] = is_constant
